@@ -29,6 +29,9 @@ CHECKS = {
  "C03": dict(technique="differential property testing (proptest grammar generator) against an extraction done with CPython's ast/tokenize; plus a real-world corpus as false-alarm guard",
              text="Generated-input search over pytest-style modules; oracle is an independent extractor written on CPython's own parser applying the documented recognisers, compared record by record. Exploration only.",
              note="trusted: CPython 3.11 ast/tokenize, oracle/pyoracle.py's reading of the documented forms", ref="DESIGN.md 4 C03", engine="vengine"),
+ "C11": dict(technique="property-based fuzzing (proptest): grammar-generated documents with character-level mutation, stale-position histories, fault-injected trees; no-panic / one-response-per-request / fault-isolation oracles",
+             text="Generated-input search for crashes: every public library entry point under catch_unwind, the real server over stdio with liveness probe, scans of trees with injected faults compared per file with the fault-free scan. Exploration only; libFuzzer campaign in the thorough tier when built.",
+             note="trusted: release profile equals the shipped configuration; watchdog expiry without panic evidence is inconclusive", ref="DESIGN.md 4 C11", engine="vengine"),
 }
 PENDING = {
 }
